@@ -287,7 +287,11 @@ func (s *Server) getQueueCandidates(d *commandDetails) []*Hook {
 
 func (s *Server) queueHooks(d *commandDetails) error {
 	// Create the slices that will store all messages and hooks
-	var cmsgs, wmsgs []string
+	// channel messages keep the name of their channel next to them: the name
+	// inside the JSON text is not the name when it is not valid UTF-8
+	type chanMsg struct{ name, msg string }
+	var cmsgs []chanMsg
+	var wmsgs []string
 	var whooks []*Hook
 
 	// Compile a slice of potential hook recipients
@@ -298,7 +302,9 @@ func (s *Server) queueHooks(d *commandDetails) error {
 		msgs := FenceMatch(hook.Name, hook.ScanWriter, hook.Fence, hook.Metas, d)
 		if len(msgs) > 0 {
 			if hook.channel {
-				cmsgs = append(cmsgs, msgs...)
+				for _, m := range msgs {
+					cmsgs = append(cmsgs, chanMsg{hook.Name, m})
+				}
 			} else {
 				wmsgs = append(wmsgs, msgs...)
 				whooks = append(whooks, hook)
@@ -313,7 +319,9 @@ func (s *Server) queueHooks(d *commandDetails) error {
 
 	// Sort both message channel and webhook message slices
 	if len(cmsgs) > 1 {
-		sortMsgs(cmsgs)
+		sort.SliceStable(cmsgs, func(i, j int) bool {
+			return lessMsgs(cmsgs[i].msg, cmsgs[j].msg)
+		})
 	}
 	if len(wmsgs) > 1 {
 		sortMsgs(wmsgs)
@@ -322,7 +330,7 @@ func (s *Server) queueHooks(d *commandDetails) error {
 	// Publish all channel messages if any exist
 	if len(cmsgs) > 0 {
 		for _, m := range cmsgs {
-			s.Publish(gjson.Get(m, "hook").String(), m)
+			s.Publish(m.name, m.msg)
 		}
 	}
 
@@ -357,18 +365,22 @@ func (s *Server) queueHooks(d *commandDetails) error {
 // sortMsgs sorts passed notification messages by their detect and hook fields
 func sortMsgs(msgs []string) {
 	sort.SliceStable(msgs, func(i, j int) bool {
-		detectI := msgDetectCode(gjson.Get(msgs[i], "detect").String())
-		detectJ := msgDetectCode(gjson.Get(msgs[j], "detect").String())
-		if detectI < detectJ {
-			return true
-		}
-		if detectI > detectJ {
-			return false
-		}
-		hookI := gjson.Get(msgs[i], "hook").String()
-		hookJ := gjson.Get(msgs[j], "hook").String()
-		return hookI < hookJ
+		return lessMsgs(msgs[i], msgs[j])
 	})
+}
+
+func lessMsgs(a, b string) bool {
+	detectI := msgDetectCode(gjson.Get(a, "detect").String())
+	detectJ := msgDetectCode(gjson.Get(b, "detect").String())
+	if detectI < detectJ {
+		return true
+	}
+	if detectI > detectJ {
+		return false
+	}
+	hookI := gjson.Get(a, "hook").String()
+	hookJ := gjson.Get(b, "hook").String()
+	return hookI < hookJ
 }
 
 // msgDetectCode returns a weight value for the passed detect value
